@@ -6,8 +6,8 @@ CONSTANTS
   MaxActions = 0
   ActionKinds = {"complete"}
   ErrCodes = {"e1"}
-  Deviations = {"F2"}
-  SharedCatchPrev = TRUE
+  Deviations = {}
+  SharedCatchPrev = FALSE
 VIEW View
 INVARIANT C01_QuiescentOK
 CHECK_DEADLOCK FALSE
